@@ -130,6 +130,9 @@ func (r *Runner) packet(in *Input) (channeltypes.Packet, map[string]any) {
 		} else {
 			data = []byte(w.rawMemo(in.Raw))
 		}
+	} else if strings.HasPrefix(in.Raw, "DATA:") {
+		// the packet the input describes, in an unusual spelling given literally
+		data = []byte(w.rawMemo(in.Raw[5:]))
 	} else {
 		d := transfertypes.FungibleTokenPacketData{
 			Denom: denom, Amount: amount,
